@@ -28,7 +28,23 @@ type Reply struct {
 	Body   []byte // response body
 	Header http.Header
 	Err    error // transport error instead of a response
+	// BodyErr: the response (status and headers) arrives, but reading its body fails after the given bytes,
+	// as when the connection drops mid-body or the peer sent fewer bytes than it declared.
+	BodyErr bool
 }
+
+type failingBody struct {
+	r *bytes.Reader
+}
+
+func (f *failingBody) Read(p []byte) (int, error) {
+	n, err := f.r.Read(p)
+	if err == io.EOF {
+		return n, io.ErrUnexpectedEOF
+	}
+	return n, err
+}
+func (f *failingBody) Close() error { return nil }
 
 // RT is a scripted http.RoundTripper. Like the real transport it reads the whole request body and fails
 // when the body is shorter than the declared Content-Length (a request whose body was already consumed).
@@ -77,6 +93,10 @@ func (rt *RT) RoundTrip(req *http.Request) (*http.Response, error) {
 	h := r.Header
 	if h == nil {
 		h = http.Header{}
+	}
+	if r.BodyErr {
+		return &http.Response{StatusCode: r.Status, Status: fmt.Sprintf("%d", r.Status), Proto: "HTTP/1.1", ProtoMajor: 1, ProtoMinor: 1,
+			Header: h, Body: &failingBody{bytes.NewReader(r.Body)}, ContentLength: int64(len(r.Body)) + 100, Request: req}, nil
 	}
 	return &http.Response{StatusCode: r.Status, Status: fmt.Sprintf("%d", r.Status), Proto: "HTTP/1.1", ProtoMajor: 1, ProtoMinor: 1,
 		Header: h, Body: io.NopCloser(bytes.NewReader(r.Body)), ContentLength: int64(len(r.Body)), Request: req}, nil
